@@ -514,8 +514,46 @@ class RefModel:
             sfuel = self._vec(a.get("start_fuel", 0.0), W, default=0.0)
         prev = None
         self.aux[name] = dict(p={}, h={}, W=W, word=word, starts=sorted(st))
+        # start / shutdown ramp profiles (per step; the caller uses grids where one step = one main time unit)
+        SL, SU = a.get("start_ramp_lower_bounds"), a.get("start_ramp_upper_bounds")
+        DL, DU = a.get("shutdown_ramp_lower_bounds"), a.get("shutdown_ramp_upper_bounds")
+        SU = SU if SU is not None else SL
+        DU = DU if DU is not None else DL
+        nS = len(SL) if SL else 0
+        nD = len(DL) if DL else 0
+        lenient = self.opt.get("profile_reading") == "lenient"
+        n = len(W)
+        # run structure: for each on step its offset from the start of its run and the index of the shutdown ending the run
+        run_start, run_end = [None] * n, [None] * n
+        k = 0
+        while k < n:
+            if word[k]:
+                s0 = k
+                while k < n and word[k]:
+                    k += 1
+                e0 = k if k < n else None          # shutdown index inside the horizon (None: runs to the end)
+                first = (s0 == 0 and init[0] == "on")
+                for q in range(s0, (e0 if e0 is not None else n)):
+                    run_start[q] = (-init[1] if first else s0)
+                    run_end[q] = e0
+            else:
+                k += 1
+        tau0 = 0 if (init[0] == "on" and n and not word[0]) else None   # shutdown right at step 0
+        if init[0] == "on" and nS and init[1] < nS:
+            for i in range(nS - init[1]):
+                if i < n and not word[i]:
+                    lp.row({}, 1.0, 1.0)  # the unit is still in its start ramp: it cannot be off here (infeasible pattern)
         for k, t in enumerate(W):
             on = word[k]
+            lo_k, hi_k = lo[t] * g.dt[t], hi[t] * g.dt[t]
+            in_start = in_shut = False
+            if on and nS and (k - run_start[k]) < nS:
+                j = k - run_start[k]
+                lo_k, hi_k, in_start = SL[j] * g.dt[t], SU[j] * g.dt[t], True
+            elif on and nD and run_end[k] is not None and (run_end[k] - k - 1) < nD:
+                j = run_end[k] - k - 1
+                lo_k, hi_k, in_shut = DL[j] * g.dt[t], DU[j] * g.dt[t], True
+            hi_k = min(hi_k, hi[t] * g.dt[t])   # a profile never lifts the output above the maximum capacity of the step
             p = lp.var(0.0, hi[t] * g.dt[t] if on else 0.0)
             v = {p: 1.0}
             self.aux[name]["p"][t] = p
@@ -529,24 +567,38 @@ class RefModel:
                 if share is not None:
                     lp.row({h: 1.0, p: -share[t]}, -INF, 0.0)
             if on:
-                lp.row(v, lo[t] * g.dt[t], hi[t] * g.dt[t])
-            self._addcost(name, t, {j: disc[t] * price[t] * c for j, c in v.items()},
+                if lo_k > hi_k + 1e-12:
+                    lp.row({}, 1.0, 1.0)   # profile value above the maximum capacity: pattern infeasible
+                else:
+                    lp.row(v, lo_k, hi_k)
+            self._addcost(name, t, {j_: disc[t] * price[t] * c_ for j_, c_ in v.items()},
                           const=(running[t] * g.dt[t] if on else 0.0) + (start_costs[t] if k in st else 0.0))
             if n_fuel is not None:
-                fl = {j: -c / eff[t] for j, c in v.items()}
+                fl = {j_: -c_ / eff[t] for j_, c_ in v.items()}
                 constf = -(cons[t] * g.dt[t] if on else 0.0) - (sfuel[t] if k in st else 0.0)
-                # constant flows are modelled with a fixed variable
                 one = lp.var(1.0, 1.0)
                 fl[one] = constf
                 self._addflow(name, n_fuel, t, fl)
             if ramp is not None:
                 rs = ramp * step0
+                # which shutdown ends the run the PREVIOUS step belongs to (or happens right at this step)
+                if k == 0:
+                    tau = tau0 if tau0 is not None else (run_end[0] if (on and init[0] == "on") else None)
+                    prev_on = init[0] == "on"
+                else:
+                    tau = run_end[k - 1] if word[k - 1] else None
+                    prev_on = bool(word[k - 1])
+                relax_up = in_start
+                relax_down = bool(nD and prev_on and tau is not None and (tau - nD + (0 if lenient else 1)) <= k <= tau)
                 if prev is None:
-                    lp.row(v, last * step0 - rs, last * step0 + rs)
+                    base_v = last * step0
+                    lo_r = -INF if relax_down else base_v - rs
+                    hi_r = INF if relax_up else base_v + rs
+                    lp.row(v, lo_r, hi_r)
                 else:
                     co = dict(v)
                     expr_add(co, prev, -1.0)
-                    lp.row(co, -rs, rs)
+                    lp.row(co, -INF if relax_down else -rs, INF if relax_up else rs)
             prev = v
 
     # ------------------------------------------------------------------ balance / solve
